@@ -407,7 +407,7 @@ pub fn run(args: &Args, seed: u64, tier: &str, report: &Report) -> String {
         run_shards(threads, 32, body);
     }
     // every advertised size: create, insert, probe, fill indicator (sizes above 256 MB only in the thorough tier)
-    let all_sizes: Vec<usize> = if thorough { vec![0, 1, 2, 3, 5, 7, 8, 15, 16, 31, 32, 63, 64, 100, 127, 128, 255, 256, 257, 511, 512, 1000, 1023, 1024] } else if args.flag("--no-size-sweep") { vec![] } else { vec![0, 1, 2, 3, 5, 8, 16, 31, 64, 128, 256] };
+    let all_sizes: Vec<usize> = if args.flag("--no-size-sweep") { vec![] } else if thorough { vec![0, 1, 2, 3, 5, 7, 8, 15, 16, 31, 32, 63, 64, 100, 127, 128, 255, 256, 257, 511, 512, 1000, 1023, 1024] } else { vec![0, 1, 2, 3, 5, 8, 16, 31, 64, 128, 256] };
     let mut l = Local::default();
     for mb in all_sizes {
         let ops = vec![
